@@ -119,6 +119,8 @@ func (fc *FnCtx) runAnchors(anchor, when string, pos token.Pos) {
 			fc.cur.assume(env.evalBool(a.Expr))
 			if strings.HasPrefix(a.Anchor, "make ") {
 				fc.noteTrusted("ghost attributes of a freshly made channel (" + a.Anchor + "): " + a.Src)
+			} else if !strings.Contains(a.Anchor, "Mutex).") {
+				fc.noteTrusted("assumed outcome of a call in " + fc.name + " (" + a.Anchor + "): " + a.Src)
 			} else {
 				fc.noteTrusted("monitor invariant assumed at lock acquisition in " + fc.name + " (re-established by every function that takes the lock): " + a.Src)
 			}
@@ -162,6 +164,17 @@ func (fc *FnCtx) anchorEnv() *Env {
 		}
 	}
 	st := fc.cur
+	// older(x) at a program point inside a loop: x exists already when the current iteration of the innermost
+	// enclosing loop starts (its address is below that loop's first allocation)
+	var inner *loopInfo
+	for _, li := range fc.loops {
+		if (li.body[b] || li.header == b) && li.hstate != nil && (inner == nil || len(li.body) < len(inner.body)) {
+			inner = li
+		}
+	}
+	if inner != nil {
+		env.olderLimit = app("bvadd", "allocbase", bvLit(uint64(inner.headCtr+1)*16, 64))
+	}
 	for i, a := range fc.anchorArgs {
 		env.vars[fmt.Sprintf("arg%d", i)] = a
 	}
